@@ -2,16 +2,25 @@
 import PhotVerif.Driver.Geom
 import PhotVerif.Driver.ApSum
 import PhotVerif.Driver.Detect
+import PhotVerif.Driver.Segm
 namespace PhotVerif.Driver
 
-def handlers : List (String → List String → Option String) := [handleGeom, handleMask, handleApSum, handleDetect]
+/-- driver state: the objects that live across lines (state-machine models) -/
+structure DState where
+  segm : Option PhotVerif.Model.Segm.State := none
 
-def dispatch (line : String) : String :=
+def handlers : List (String → List String → Option String) :=
+  [handleGeom, handleMask, handleApSum, handleDetect]
+
+def dispatch (st : DState) (line : String) : DState × String :=
   match tokens line with
-  | [] => "bad-op"
+  | [] => (st, "bad-op")
   | op :: args =>
     match handlers.findSome? (fun h => h op args) with
-    | some r => r
-    | none => "bad-op"
+    | some r => (st, r)
+    | none =>
+      match handleSegm st.segm op args with
+      | some (s', r) => ({ st with segm := s' }, r)
+      | none => (st, "bad-op")
 
 end PhotVerif.Driver
